@@ -133,6 +133,7 @@ pub fn alphabet_r1(all_lengths: bool) -> Alphabet {
         }));
         a.push(sd(off, custom_block(0, 8, 0xEE))); // zero width
         a.push(sd(off, custom_block(1, 1, 0xEE))); // the smallest sign: 1 x 1, one 16-byte page
+        a.push(sd(off, custom_block(12, 0, 0xEE))); // zero height (a 16-byte buffer would have the padded size of 12 x 0)
         a.push(sd(off, {
             let mut b = custom_block(12, 8, 0xEE);
             b[5] = 0xFF;
